@@ -1429,6 +1429,9 @@ func (s *Service) runPipeline(rp *runnablePipeline) error {
 	// other end of this function — closed exactly once, only after every
 	// worker has exited (workersWg.Wait below). See funnel.Sink's doc.
 	if err := rp.sink.Open(ctx); err != nil {
+		for _, w := range rp.workers {
+			w.Discard(context.Background()) // never opened, see Worker.Discard
+		}
 		return cerrors.Errorf("failed to open shared sink: %w", err)
 	}
 
@@ -1441,6 +1444,9 @@ func (s *Service) runPipeline(rp *runnablePipeline) error {
 		if err := w.Open(ctx); err != nil {
 			for j := len(opened) - 1; j >= 0; j-- {
 				_ = opened[j].Close(context.Background())
+			}
+			for _, unopened := range rp.workers[i+1:] {
+				unopened.Discard(context.Background())
 			}
 			_ = rp.sink.Close(context.Background())
 			return cerrors.Errorf("failed to open worker for source %s: %w", rp.sourceIDs[i], err)
